@@ -120,6 +120,8 @@ class C07(Check):
         'columns are not explored',
         'text columns are object dtype or Categorical (pandas `str` dtype is '
         'outside the property\'s type list)',
+        'every null object an object column can hold (None, float nan, '
+        'np.nan, pd.NA, pd.NaT) counts as null in the model; '
         'gray zones (never alarmed on): type of an object column without any '
         'non-null cell; max_nulls 0 or allowed_values [] for absent data; '
         'sign "null" on an all-null numeric column; presence of sign on bool '
@@ -145,6 +147,11 @@ class C07(Check):
         R = 4 if tier == 'thorough' else 3
         return [('pd-single', 'one-column DataFrames, all families, 0..%d '
                               'rows, many-category columns' % R),
+                ('pd-nulls', 'object columns (strings, bools, dates, 19/20/21 '
+                             'categories) with one, two (both orders) or '
+                             'three KINDS of null - None, float nan, np.nan, '
+                             'pd.NA, pd.NaT - and all values distinct / one '
+                             'duplicated / one value / none'),
                 ('sqlite-single', 'one-column SQLite tables, 0..%d rows' % R),
                 ('sqlite-decl', 'the 14 other declared type names of the '
                                 'type map, 0..2 rows'),
@@ -173,6 +180,10 @@ class C07(Check):
             fams = FA.BASE_FAMILIES + FA.EXTRA_FAMILIES
             for fr in FA.single_column_frames(fams, R, names, manycat=True):
                 yield {'src': 'pd', 'frame': fr}
+        elif layer == 'pd-nulls':
+            for name in (FA.NAMES[:3] if thorough else ['a']):
+                for col in FA.null_flavour_columns(name):
+                    yield {'src': 'pd', 'frame': {'cols': [col]}}
         elif layer == 'sqlite-single':
             for name in SQL_NAMES:
                 for decl, kind in SQL_DECL.items():
@@ -396,7 +407,30 @@ class C07(Check):
         obs = self.fresh(self.child_single, case)
         R.ev()
         self.judge(R, case, obs)
+        if R.violations and case['src'] == 'pd':
+            self.blame_null_flavours(R, case)
         return R
+
+    def blame_null_flavours(self, R, case):
+        """Root-cause attribution by reduction: a violation on a column that
+        holds explicit null objects (pd.NA, NaT, nan ...) which disappears
+        when every null is the plain None is caused by the KIND of null and
+        gets ':null=<kind>' / ':mixed-nulls' appended to its signature."""
+        cols = case['frame']['cols']
+        fl = sorted(set(f for c in cols for f in FA.null_flavours_of(c)))
+        if not fl:
+            return
+        plain = {'src': 'pd', 'frame': {'cols': [
+            dict(c, v=[None if isinstance(x, dict) else x for x in c['v']])
+            for c in cols]}}
+        R2 = Res()
+        self.judge(R2, plain, self.fresh(self.child_single, plain))
+        R.ev()
+        base = set(v['sig'] for v in R2.violations)
+        tag = ':mixed-nulls' if len(fl) > 1 else ':null=%s' % fl[0]
+        for v in R.violations:
+            if v['sig'] not in base:
+                v['sig'] += tag
 
     def run_histories(self, R, case):
         """E3: same-named table / column discovered again after something
@@ -511,8 +545,8 @@ class C07(Check):
                                                      'no_duplicates') else '')
                 for k in obs1 if k != 'type')))
             for (clause, key, e, o) in problems:
-                R.viol(self.sig(clause, key, kind, vals, info), '%s-%s'
-                       % (key, clause),
+                R.viol(self.sig(clause, key, kind, vals, info),
+                       '%s-%s' % (key, clause),
                        {'source': src, 'input': what, 'field': name,
                         'key': key, 'expected': _j(e), 'observed': _j(o),
                         'discovered': _j(dict(obs1))}, {'field': name})
